@@ -427,10 +427,11 @@ package moss
 
 //@ func (m *collection) get(key []byte, readOptions ReadOptions) ([]byte, error)
 //@   props C10
-//@   requires collOK(m)
-//@   modifies m.lowerLevelSnapshot.refCount, m.lowerLevelSnapshot.ss, m.lowerLevelSnapshot.closer
-//@   ensures @agree r1 == nil ==> r0 == old(collRead(m, key, readOptions.SkipLowerLevel))
-//@   ensures @chain r1 == nil ==> r0 == old(chainRead(m, key))
+//@   requires m != nil && !held(m.m)
+//@   modifies heap(SnapshotWrapper.refCount), heap(SnapshotWrapper.ss), heap(SnapshotWrapper.closer)
+//@   ensures @unlocked !held(m.m)
+//@   ensures @agree r1 == nil ==> r0 == atAcquire(collRead(m, key, readOptions.SkipLowerLevel))
+//@   ensures @chain r1 == nil ==> r0 == atAcquire(chainRead(m, key))
 
 // ---- dirty gauges (C20) -------------------------------------------------------------------------
 
@@ -461,7 +462,7 @@ package moss
 
 //@ func (m *collection) statsSegmentsLOCKED(rv *CollectionStats)
 //@   props C20
-//@   requires collOK(m) && rv != nil
+//@   requires collOK(m) && rv != nil && held(m.m)
 //@   modifies fields(rv)
 //@   ensures @zeroMeansEmpty rv.CurDirtySegments == 0 ==> treeEmpty(m.stackDirtyTop) && treeEmpty(m.stackDirtyMid) && treeEmpty(m.stackDirtyBase)
 
@@ -1222,7 +1223,7 @@ package moss
 //@ func (m *collection) Get(key []byte, readOptions ReadOptions) ([]byte, error)
 //@   props C16
 //@   attr obligations ensures
-//@   requires m != nil && m.stats != nil && collOK(m)
+//@   requires m != nil && m.stats != nil && !held(m.m)
 //@   modifies heaps(SnapshotWrapper), heaps(CollectionStats)
 //@   ensures @closedFinal old(closed(m.stopCh)) ==> r1 == ErrClosed && r0 == nil
 
